@@ -27,7 +27,10 @@ ASSUMPTIONS = [
     'vertex mean at rounding-aware tolerances (area: 1e-9 relative + (n+5) ulp of sum |v_i|_1 |v_{i+1}|_1, which is the forward error bound of '
     'the formula sum v_i x v_{i+1} used by the crate; it is what limits the accuracy at offset 1e3)',
 ]
-THEOREMS = ['C10_sum_cross_is_newell', 'C10_area_is_half_abs_n_dot_S', 'C10_normal_right_hand', 'C10_area_is_true_area', 'C10_S_shift', 'C10_S_reverse', 'C10_S_translate', 'C10_S_insert_on_edge', 'C10_S_insert_on_closing_edge', 'C10_S_ear', 'C10_signed_area_ear', 'C10_S_rigid_motion', 'C10_S_parallel_to_normal', 'C10_perimeter_is_sum_of_edges', 'C10_perimeter_shift', 'C10_perimeter_reverse', 'C10_centroid_is_mean', 'C10_centroid_shift', 'C10_centroid_reverse', 'C10_polygon_area_normal', 'C10_polygon_outer_centroid_is_mean', 'C10_set_normal_unit_perp', 'C10_pipeline_shift_partial', 'C10_pipeline_point_on_edge']
+THEOREMS = ['C10_sum_cross_is_newell', 'C10_area_is_half_abs_n_dot_S', 'C10_normal_right_hand', 'C10_area_is_true_area', 'C10_S_shift', 'C10_S_reverse', 'C10_S_translate', 'C10_S_insert_on_edge', 'C10_S_insert_on_closing_edge', 'C10_S_ear', 'C10_signed_area_ear', 'C10_S_rigid_motion', 'C10_S_parallel_to_normal', 'C10_perimeter_is_sum_of_edges', 'C10_perimeter_shift', 'C10_perimeter_reverse', 'C10_centroid_is_mean', 'C10_centroid_shift', 'C10_centroid_reverse', 'C10_polygon_area_normal', 'C10_polygon_outer_centroid_is_mean', 'C10_set_normal_unit_perp', 'C10_pipeline_shift_partial', 'C10_pipeline_point_on_edge',
+            'C10_pipeline_enrichment', 'C10_pipeline_enrichment_same_start', 'C10_pipeline_enriched_at_vertex', 'C10_pipeline_enriched_at_inserted_point',
+            'C10_enrichment_measures', 'C10_normal_before_close_is_first_corner', 'C10_enrichment_area_normal', 'C10_enrichment_area_normal_given_normals',
+            'C10_enrich_conditions_cyclic', 'C10_enrich_start_distinct_from_successor']
 
 def streams(tier):
     if tier == 'quick': return [Stream('C10', 300)]
